@@ -384,6 +384,7 @@ type indexCase struct {
 	Orphans   []int    // entries whose metadata was deleted from the store afterwards (their value keys remain)
 	Updates   []int    // entries re-advertised with new metadata after the client has already answered queries
 	Removals  []int    // entries whose metadata is deleted after the client has already answered queries
+	NoEcho    bool     // the store answers without repeating the looked-up multihash (the field is optional in the response)
 }
 
 func genIndex(t *rapid.T) indexCase {
@@ -447,6 +448,7 @@ func genIndex(t *rapid.T) indexCase {
 			}
 		}
 	}
+	c.NoEcho = rapid.IntRange(0, 3).Draw(t, "noecho") == 0
 	ng := rapid.IntRange(0, 3).Draw(t, "ngarbage")
 	for i := 0; i < ng; i++ {
 		c.Garbage = append(c.Garbage, gen.Bytes(0, 40).Draw(t, "garbage"))
@@ -459,6 +461,7 @@ type memStore struct {
 	mu  sync.Mutex
 	evk map[string][][]byte // b58(second multihash) -> encrypted value keys
 	emd map[string][]byte   // b58(sha256(value key)) -> encrypted metadata
+	noEcho bool
 }
 
 func (s *memStore) FindMultihash(_ context.Context, dhmh multihash.Multihash) ([]model.EncryptedMultihashResult, error) {
@@ -467,6 +470,9 @@ func (s *memStore) FindMultihash(_ context.Context, dhmh multihash.Multihash) ([
 	v, ok := s.evk[dhmh.B58String()]
 	if !ok {
 		return nil, nil
+	}
+	if s.noEcho {
+		return []model.EncryptedMultihashResult{{EncryptedValueKeys: v}}, nil
 	}
 	return []model.EncryptedMultihashResult{{Multihash: dhmh, EncryptedValueKeys: v}}, nil
 }
@@ -500,12 +506,16 @@ func server() *httptest.Server {
 			key := strings.TrimPrefix(r.URL.Path, "/encrypted/multihash/")
 			st.mu.Lock()
 			v, ok := st.evk[key]
+			noEcho := st.noEcho
 			st.mu.Unlock()
 			if !ok {
 				http.Error(w, "not found", http.StatusNotFound)
 				return
 			}
 			mhb, _ := b58.Decode(key)
+			if noEcho {
+				mhb = nil
+			}
 			_ = json.NewEncoder(w).Encode(model.FindResponse{EncryptedMultihashResults: []model.EncryptedMultihashResult{{Multihash: mhb, EncryptedValueKeys: v}}})
 		})
 		mux.HandleFunc("/metadata/", func(w http.ResponseWriter, r *http.Request) {
@@ -548,7 +558,7 @@ type triple struct{ P, C, M string }
 
 func runIndex(c indexCase) pbt.Result {
 	res := pbt.Result{Classes: []string{"transport=" + c.Transport, fmt.Sprintf("providers=%v", c.Providers)}}
-	st := &memStore{evk: map[string][][]byte{}, emd: map[string][]byte{}}
+	st := &memStore{evk: map[string][][]byte{}, emd: map[string][]byte{}, noEcho: c.NoEcho}
 	want := map[int][]triple{}
 	perMH := map[int]map[int]bool{}
 	orphan := map[int]bool{}
